@@ -54,8 +54,9 @@ type oracle struct {
 
 type committedTxn struct {
 	// commitTs
-	ts       uint64
-	writesFp map[uint64]struct{}
+	ts uint64
+	// keys written by the txn (the keys themselves, a hash of them could collide and report a false conflict)
+	writes map[string]struct{}
 }
 
 func newOracle() *oracle {
@@ -99,8 +100,8 @@ func (o *oracle) newCommitTs(txn *Txn) (uint64, bool) {
 	o.commitMark.Begin(ts)
 
 	o.committedTxns = append(o.committedTxns, committedTxn{
-		ts:       ts,
-		writesFp: txn.writesFp,
+		ts:     ts,
+		writes: txn.writes,
 	})
 
 	return ts, false
@@ -178,7 +179,7 @@ func (o *oracle) discardAtOrBelow() uint64 {
 //
 // 1. Txn1 start:
 // - get readTs 100
-// - read key=counter, value=5, record counter fingerprint to readsFp
+// - read key=counter, value=5, record counter to reads
 //
 // 2. Txn2 start:
 // - get readTs 101
@@ -195,7 +196,7 @@ func (o *oracle) discardAtOrBelow() uint64 {
 // - conflictKeys include the fp of key=counter
 // - return err conflict
 func (o *oracle) hasConflict(txn *Txn) bool {
-	if len(txn.readsFp) == 0 {
+	if len(txn.reads) == 0 {
 		return false
 	}
 	for _, ct := range o.committedTxns {
@@ -203,9 +204,9 @@ func (o *oracle) hasConflict(txn *Txn) bool {
 			continue
 		}
 
-		for _, fp := range txn.readsFp {
+		for _, key := range txn.reads {
 			// a conflict occurred when curr txn read a key that be modified by a committed txn
-			if _, ok := ct.writesFp[fp]; ok {
+			if _, ok := ct.writes[key]; ok {
 				return true
 			}
 		}
